@@ -297,6 +297,9 @@ impl HashColumn {
 				},
 			}
 		}
+		// A lookup in one index table missed; `get` moves on to the next (older) table.
+		#[cfg(pdb_verif)]
+		crate::verif::yield_point("get_in_index.miss");
 		Ok(None)
 	}
 
